@@ -55,21 +55,29 @@ theorem runAtR_hit (σ : Nat → Option Val) (c : Nat) (X r : Bytes) (res : Opti
     · have hnd' : b.idx ∉ liveIdxs gs ∧ (liveIdxs gs).Nodup := by simpa [liveIdxs, hs] using hnd
       by_cases hbc : b.idx = c
       · -- this field
-        have ha := hact b u (by simp) hs hbc
-        refine ⟨(match res with | some v => some v | none => s) :: ss, ?_, ?_⟩
-        · simp only [decFields_cons, runAt, fdOf, hs, Bool.not_false, Bool.true_and, hbc, beq_self_eq_true, if_true]
-          rw [Dec.bind_run]
-          have ha' : action ⟨b, slotInit u, nilOf b u, defaultOf u, swallows b u, decWith b.codec (decTy u)⟩ (X ++ r) = .ok res r := ha
-          rw [ha']
-          rfl
-        · refine ⟨fun _ => ?_, invR_congr gs ss (fun i hm => ?_) hi.2⟩
+        have ha : action ⟨b, slotInit u, nilOf b u, defaultOf u, swallows b u, decWith b.codec (decTy u)⟩ (X ++ r) = .ok res r :=
+          hact b u (by simp) hs hbc
+        have hinv : ∀ s', (res = none → s' = s) → (∀ pv, res = some pv → s' = some pv) → InvR (updR σ c res) ((b, u) :: gs) (s' :: ss) := by
+          intro s' h1 h2
+          refine ⟨fun _ => ?_, invR_congr gs ss (fun i hm => ?_) hi.2⟩
           · simp only [updR, hbc, beq_self_eq_true, if_true]
-            cases res with
-            | some pv => rfl
-            | none => simp only; rw [← hbc]; exact hi.1 hs
+            cases hres : res with
+            | some pv => exact h2 pv hres
+            | none => simp only; rw [h1 hres, ← hbc]; exact hi.1 hs
           · have : i ≠ c := by intro e; rw [e, ← hbc] at hm; exact hnd'.1 hm
             have hb : (i == c) = false := by simpa using this
             simp [updR, hb]
+        cases hres : res with
+        | some pv =>
+          refine ⟨some pv :: ss, ?_, hres ▸ hinv (some pv) (fun h => by rw [hres] at h; cases h) (fun pv' h => by rw [hres] at h; cases h; rfl)⟩
+          simp only [decFields_cons, runAt, fdOf, hs, Bool.not_false, Bool.true_and, hbc, beq_self_eq_true, if_true]
+          rw [Dec.bind_run, ha, hres]
+          rfl
+        | none =>
+          refine ⟨s :: ss, ?_, hres ▸ hinv s (fun _ => rfl) (fun pv' h => by rw [hres] at h; cases h)⟩
+          simp only [decFields_cons, runAt, fdOf, hs, Bool.not_false, Bool.true_and, hbc, beq_self_eq_true, if_true]
+          rw [Dec.bind_run, ha, hres]
+          rfl
       · -- a later field
         have hc' : c ∈ liveIdxs gs := by
           have : c ∈ b.idx :: liveIdxs gs := by simpa [liveIdxs, hs] using hc
@@ -140,9 +148,12 @@ theorem arrLoopN_cellsR (rest : Bytes) (gs : Fields) (cell : Nat → Item) (ρ :
     · simp only [ovr, updR]
       by_cases hic : i = c
       · subst hic
-        have e1 : (decide (i + 1 ≤ i) && decide (i < i + 1 + n)) = false := by simp
+        have e1 : (decide (i + 1 ≤ i) && decide (i < i + 1 + n)) = false := by
+          have : ¬ (i + 1 ≤ i) := by omega
+          simp [this]
         have e2 : (decide (i ≤ i) && decide (i < i + (n + 1))) = true := by simp
-        simp [e1, e2]
+        rw [e1, e2]
+        simp
       · have hb : (i == c) = false := by simpa using hic
         by_cases h1 : c + 1 ≤ i <;> by_cases h2 : i < c + 1 + n
         · have e1 : (decide (c + 1 ≤ i) && decide (i < c + 1 + n)) = true := by simp [h1, h2]
@@ -235,19 +246,19 @@ theorem resolveR (σ : Nat → Option Val) : ∀ (gs : Fields) (ss : Slots), Inv
             | none => (nilOf b u).getD .none) r := by
       cases hs : b.skip
       · have hslot := hi.1 hs
-        simp only [slotValue, fdOf, hs, Bool.false_eq_true, if_false]
         cases hσ : σ b.idx with
-        | some x => rw [hslot, hσ]; rfl
+        | some x =>
+          rw [hσ] at hslot
+          simp [slotValue, fdOf, hs, hslot]
         | none =>
           rw [hσ] at hslot
           simp only at hslot
           cases hsi : slotInit u with
-          | some y => rw [hslot, hsi]; rfl
+          | some y => simp [slotValue, fdOf, hs, hslot, hsi]
           | none =>
-            rw [hslot, hsi]
             have := hopt b u (by simp) hs hσ hsi
             cases hn : nilOf b u with
-            | some z => rfl
+            | some z => simp [slotValue, fdOf, hs, hslot, hsi, hn]
             | none => rw [hn] at this; cases this
       · simp [slotValue, fdOf, hs]
     simp only [decFields_cons, resolve, readerVals]
@@ -257,5 +268,692 @@ theorem resolveR (σ : Nat → Option Val) : ∀ (gs : Fields) (ss : Slots), Inv
     rfl
   | [], _ :: _, hi, _, _ => by simp [InvR] at hi
   | _ :: _, [], hi, _, _ => by simp [InvR] at hi
+
+/-! ### a whole body written by another version -/
+
+/-- what the reader has decoded after the body: per index, the result of the action there. -/
+def sigmaF (enc : Encoding) (fs : Fields) (vs : List Val) (ρ : Nat → Option Val) : Nat → Option Val :=
+  match enc with
+  | .array =>
+    (match maxPresent (specFields fs vs) with
+     | none => fun _ => none
+     | some m => ovr (fun _ => none) ρ 0 (m + 1))
+  | .map => ovrM (fun _ => none) ρ (sortP (encFields fs vs))
+
+/-- **the reader's body decoder on a body written by another version**: if at every index on
+    the wire the reader either skips the item or its field's action delivers `ρ`, and every
+    reader field left without a value has a nil value, the reader obtains `readerVals`. -/
+theorem fieldsDec_compat (enc : Encoding) (fs : Fields) (vs : List Val) (gs : Fields) (rest : Bytes)
+    (ρ : Nat → Option Val)
+    (hacc : acceptedFields fs = true) (hnd : (liveIdxs fs).Nodup) (hty : hasFields fs vs = true)
+    (hndR : (liveIdxs gs).Nodup)
+    (hcell : enc = .array → ∀ m, maxPresent (specFields fs vs) = some m → ∀ i, i ≤ m →
+      StepH gs (ρ i) i (encPref (cellAt (specFields fs vs) i)))
+    (hentry : enc = .map → ∀ p ∈ encFields fs vs, p.nil = false → StepH gs (ρ p.idx) p.idx (tagBytes p.tag ++ p.body))
+    (hopt : ∀ b u, (b, u) ∈ gs → b.skip = false → sigmaF enc fs vs ρ b.idx = none → slotInit u = none →
+      (nilOf b u).isSome = true) :
+    fieldsDec enc (decFields gs) (frame enc (encFields fs vs) ++ rest) = .ok (readerVals (sigmaF enc fs vs ρ) gs) rest := by
+  have hinit := invR_init gs
+  cases enc with
+  | array =>
+    have nd : (idxs (specFields fs vs)).Nodup := by rw [C08.specFields_idxs fs vs hty]; exact hnd
+    rw [C08.fields_spec fs vs hacc hty, frame_spec .array _ nd (C08.specFields_ok fs vs hacc)]
+    simp only [specBody, specArray_eq]
+    cases hm : maxPresent (specFields fs vs) with
+    | none =>
+      have hσ : sigmaF .array fs vs ρ = fun _ => none := by simp [sigmaF, hm]
+      have hres := resolveR _ gs _ hinit (fun b u hm hs _ hsi => hopt b u hm hs (by rw [hσ]) hsi) rest
+      have e : encPref (Item.array []) ++ rest = Enc.array 0 ++ rest := rfl
+      simp only [e, fieldsDec, statements, Dec.bind_run, array_enc 0 rest (by decide), arrLoopN, Dec.pure_run, hres, hσ]
+    | some m =>
+      simp only
+      obtain ⟨q, hq, hqm, _⟩ := maxPresent_mem hm
+      have hm32 : m < U32 := by rw [← hqm]; exact (C08.specFields_ok fs vs hacc q hq).1
+      rw [encPref_array _ (by simp [U64, U32] at *; omega)]
+      simp only [List.length_map, List.length_range, List.range_eq_range', List.length_range']
+      obtain ⟨ss', h1, hi1⟩ := arrLoopN_cellsR rest gs (cellAt (specFields fs vs)) ρ hndR (m + 1) 0 _ _ hinit
+        (fun i _ h2 => hcell rfl m hm i (by omega))
+      have hσ : sigmaF .array fs vs ρ = ovr (fun _ => none) ρ 0 (m + 1) := by simp [sigmaF, hm]
+      have hres := resolveR _ gs ss' hi1 (fun b u hm hs h hsi => hopt b u hm hs (by rw [hσ]; exact h) hsi) rest
+      simp only [fieldsDec, statements, Dec.bind_run, List.append_assoc,
+        array_enc (m + 1) _ (by simp [U32] at hm32; omega), h1, hres, hσ]
+  | map =>
+    have hperm := sortP_perm (encFields fs vs)
+    have nd' : (idxs (encFields fs vs)).Nodup := by rw [liveIdxs_eq_idxs fs vs hty]; exact hnd
+    have ndS : (idxs (sortP (encFields fs vs))).Nodup := (idxs_perm hperm).nodup_iff.2 nd'
+    have hS : ∀ p ∈ sortP (encFields fs vs), p.idx < U32 :=
+      fun p hp => mem_encFields_idx fs vs hacc hty p (hperm.mem_iff.1 hp)
+    obtain ⟨ss', h1, hi1⟩ := mapLoopN_stmtsR rest gs ρ hndR (sortP (encFields fs vs)) _ _ hinit ndS hS
+      (fun p hp hn => hentry rfl p (hperm.mem_iff.1 hp) hn)
+    have hσ : sigmaF .map fs vs ρ = ovrM (fun _ => none) ρ (sortP (encFields fs vs)) := rfl
+    have hres := resolveR _ gs ss' hi1 (fun b u hm hs h hsi => hopt b u hm hs (by rw [hσ]; exact h) hsi) rest
+    have hlen : (sortP (encFields fs vs)).length ≤ U32 :=
+      idx_lt_length_of_asc _ U32 (sortP_asc _ nd') hS
+    have hcp := countPresent_le (sortP (encFields fs vs))
+    simp only [frame, frameMap, maxFields_eq, fieldsDec, statements, Dec.bind_run, List.append_assoc,
+      map_enc _ _ (show countPresent (sortP (encFields fs vs)) < 18446744073709551616 by simp [U32] at hlen; omega), h1, hres, hσ]
+
+/-! ### versions that share fields *unchanged*: adding and dropping fields -/
+
+/-- the live writer field with index `i`, and its value. -/
+def lookupVal : Fields → List Val → Nat → Option (FAttr × FTy × Val)
+  | (a, t) :: fs, v :: vs, i => if !a.skip && a.idx == i then some (a, t, v) else lookupVal fs vs i
+  | _, _, _ => none
+
+/-- the value an absent optional field resolves to (`Some(None)` slot, else `nil()`). -/
+def nilVal (b : FAttr) (u : FTy) : Val :=
+  match slotInit u with
+  | some y => y
+  | none => (nilOf b u).getD .none
+
+/-- what the documentation promises a reader whose shared fields are declared exactly as the
+    writer declares them: shared fields equal (skipped parts defaulted), fields unknown to the
+    writer nil, fields unknown to the reader ignored. -/
+def expectSame (fs : Fields) (vs : List Val) : Fields → List Val
+  | [] => []
+  | (b, u) :: gs =>
+      (if b.skip then defaultOf u
+       else match lookupVal fs vs b.idx with
+         | some (_, t, v) => withDefaults t v
+         | none => nilVal b u) :: expectSame fs vs gs
+
+theorem lookupVal_find : ∀ (fs : Fields) (vs : List Val) (i : Nat), hasFields fs vs = true →
+    (specFields fs vs).find? (fun p => p.idx == i) =
+      (lookupVal fs vs i).map fun x => ⟨x.1.idx, x.1.tag, specAbsent x.1 x.2.2, specWith x.1.codec (specTy x.2.1) x.2.2⟩
+  | [], [], _, _ => rfl
+  | (a, t) :: fs, v :: vs, i, h => by
+    simp only [hasFields, Bool.and_eq_true] at h
+    have ih := lookupVal_find fs vs i h.2
+    cases hs : a.skip
+    · by_cases hi : a.idx = i
+      · simp [specFields, lookupVal, hs, hi, List.find?]
+      · have hb : (a.idx == i) = false := by simpa using hi
+        simp [specFields, lookupVal, hs, hb, List.find?, ih]
+    · simp [specFields, lookupVal, hs, ih]
+  | [], _ :: _, _, h => by simp [hasFields] at h
+  | _ :: _, [], _, h => by simp [hasFields] at h
+
+theorem lookupVal_mem : ∀ (fs : Fields) (vs : List Val) (i : Nat) (a : FAttr) (t : FTy) (v : Val),
+    lookupVal fs vs i = some (a, t, v) →
+    a.skip = false ∧ a.idx = i ∧ (⟨a.idx, a.tag, isNilField a t v, encWith a.codec (encTy t) v⟩ : Piece Bytes) ∈ encFields fs vs
+  | [], vs, _, _, _, _, h => by cases vs <;> simp [lookupVal] at h
+  | (a', t') :: fs, [], _, _, _, _, h => by simp [lookupVal] at h
+  | (a', t') :: fs, v' :: vs, i, a, t, v, h => by
+    simp only [lookupVal] at h
+    split at h
+    · rename_i hc
+      simp only [Bool.and_eq_true, Bool.not_eq_true', beq_iff_eq] at hc
+      cases h
+      exact ⟨hc.1, hc.2, by simp [encFields, hc.1]⟩
+    · obtain ⟨h1, h2, h3⟩ := lookupVal_mem fs vs i a t v h
+      refine ⟨h1, h2, ?_⟩
+      cases hs : a'.skip <;> simp [encFields, hs, h3]
+
+theorem lookupVal_of_mem : ∀ (fs : Fields) (vs : List Val) (p : Piece Bytes), (liveIdxs fs).Nodup →
+    p ∈ encFields fs vs → ∃ a t v, lookupVal fs vs p.idx = some (a, t, v) ∧
+      p = ⟨a.idx, a.tag, isNilField a t v, encWith a.codec (encTy t) v⟩
+  | [], vs, p, _, h => by cases vs <;> simp [encFields] at h
+  | (a', t') :: fs, [], p, _, h => by simp [encFields] at h
+  | (a', t') :: fs, v' :: vs, p, hnd, h => by
+    cases hs : a'.skip
+    · have hnd' : a'.idx ∉ liveIdxs fs ∧ (liveIdxs fs).Nodup := by simpa [liveIdxs, hs] using hnd
+      simp only [encFields, hs, Bool.false_eq_true, if_false, List.mem_cons] at h
+      rcases h with rfl | h
+      · exact ⟨a', t', v', by simp [lookupVal, hs], rfl⟩
+      · obtain ⟨a, t, v, h1, h2⟩ := lookupVal_of_mem fs vs p hnd'.2 h
+        have hpi : p.idx ∈ liveIdxs fs := by
+          obtain ⟨_, hi, _⟩ := lookupVal_mem fs vs p.idx a t v h1
+          have hmem := (lookupVal_mem fs vs p.idx a t v h1).2.2
+          -- the index of a piece is a live index
+          have key : ∀ (fs : Fields) (vs : List Val) (q : Piece Bytes), q ∈ encFields fs vs → q.idx ∈ liveIdxs fs := by
+            intro fs
+            induction fs with
+            | nil => intro vs q hq; cases vs <;> simp [encFields] at hq
+            | cons f fs ih =>
+              intro vs q hq
+              obtain ⟨fa, ft⟩ := f
+              cases vs with
+              | nil => simp [encFields] at hq
+              | cons w ws =>
+                cases hfs : fa.skip
+                · simp only [encFields, hfs, Bool.false_eq_true, if_false, List.mem_cons] at hq
+                  rcases hq with rfl | hq
+                  · simp [liveIdxs, hfs]
+                  · simp [liveIdxs, hfs, ih ws q hq]
+                · simp only [encFields, hfs, if_true] at hq
+                  simp [liveIdxs, hfs, ih ws q hq]
+          exact key fs vs p h
+        have hne : a'.idx ≠ p.idx := by intro e; rw [e] at hnd'; exact hnd'.1 hpi
+        have hb : (a'.idx == p.idx) = false := by simpa using hne
+        exact ⟨a, t, v, by simp [lookupVal, hs, hb, h1], h2⟩
+    · have hnd' : (liveIdxs fs).Nodup := by simpa [liveIdxs, hs] using hnd
+      simp only [encFields, hs, if_true] at h
+      obtain ⟨a, t, v, h1, h2⟩ := lookupVal_of_mem fs vs p hnd' h
+      exact ⟨a, t, v, by simp [lookupVal, hs, h1], h2⟩
+
+theorem lookupVal_rt : ∀ (fs : Fields) (vs : List Val) (i : Nat) (a : FAttr) (t : FTy) (v : Val),
+    FieldsRT fs vs → lookupVal fs vs i = some (a, t, v) →
+    ∀ r, decWith a.codec (decTy t) (encWith a.codec (encTy t) v ++ r) = .ok (withDefaults t v) r
+  | [], vs, _, _, _, _, _, h => by cases vs <;> simp [lookupVal] at h
+  | (a', t') :: fs, [], _, _, _, _, _, h => by simp [lookupVal] at h
+  | (a', t') :: fs, v' :: vs, i, a, t, v, hrt, h => by
+    simp only [lookupVal] at h
+    split at h
+    · rename_i hc
+      simp only [Bool.and_eq_true, Bool.not_eq_true', beq_iff_eq] at hc
+      cases h
+      exact hrt.1 hc.1
+    · exact lookupVal_rt fs vs i a t v hrt.2 h
+
+theorem lookupVal_none : ∀ (fs : Fields) (vs : List Val) (i : Nat), hasFields fs vs = true →
+    (lookupVal fs vs i = none ↔ i ∉ liveIdxs fs)
+  | [], [], _, _ => by simp [lookupVal, liveIdxs]
+  | (a, t) :: fs, v :: vs, i, h => by
+    simp only [hasFields, Bool.and_eq_true] at h
+    have ih := lookupVal_none fs vs i h.2
+    cases hs : a.skip
+    · by_cases hi : a.idx = i
+      · simp [lookupVal, liveIdxs, hs, hi]
+      · have hb : (a.idx == i) = false := by simpa using hi
+        have hne : ¬ i = a.idx := fun e => hi e.symm
+        simp only [lookupVal, liveIdxs, hs, hb, Bool.not_false, Bool.true_and, Bool.false_eq_true, if_false,
+          List.mem_cons, hne, false_or]
+        exact ih
+    · simp only [lookupVal, liveIdxs, hs, Bool.not_true, Bool.false_and, Bool.false_eq_true, if_false, if_true]
+      exact ih
+  | [], _ :: _, _, h => by simp [hasFields] at h
+  | _ :: _, [], _, h => by simp [hasFields] at h
+
+theorem findField_mem : ∀ (gs : Fields) (i : Nat) (b : FAttr) (u : FTy), findField gs i = some (b, u) →
+    (b, u) ∈ gs ∧ b.skip = false ∧ b.idx = i
+  | [], _, _, _, h => by simp [findField] at h
+  | (b', u') :: gs, i, b, u, h => by
+    simp only [findField] at h
+    split at h
+    · rename_i hc
+      simp only [Bool.and_eq_true, Bool.not_eq_true', beq_iff_eq] at hc
+      cases h; exact ⟨by simp, hc.1, hc.2⟩
+    · obtain ⟨h1, h2, h3⟩ := findField_mem gs i b u h
+      exact ⟨by simp [h1], h2, h3⟩
+
+theorem mem_liveIdxs : ∀ (gs : Fields) (b : FAttr) (u : FTy), (b, u) ∈ gs → b.skip = false → b.idx ∈ liveIdxs gs
+  | [], _, _, h, _ => by simp at h
+  | (b', u') :: gs, b, u, h, hs => by
+    rcases List.mem_cons.1 h with e | h'
+    · cases e; simp [liveIdxs, hs]
+    · have := mem_liveIdxs gs b u h' hs
+      cases hs' : b'.skip <;> simp [liveIdxs, hs', this]
+
+theorem findField_of_mem : ∀ (gs : Fields) (b : FAttr) (u : FTy), (liveIdxs gs).Nodup → (b, u) ∈ gs → b.skip = false →
+    findField gs b.idx = some (b, u)
+  | [], _, _, _, h, _ => by simp at h
+  | (b', u') :: gs, b, u, hnd, h, hs => by
+    rcases List.mem_cons.1 h with e | h'
+    · cases e; simp [findField, hs]
+    · cases hs' : b'.skip
+      · have hnd' : b'.idx ∉ liveIdxs gs ∧ (liveIdxs gs).Nodup := by simpa [liveIdxs, hs'] using hnd
+        have ih := findField_of_mem gs b u hnd'.2 h' hs
+        have hbi := mem_liveIdxs gs b u h' hs
+        have hne : b'.idx ≠ b.idx := by intro e; rw [e] at hnd'; exact hnd'.1 hbi
+        have hb : (b'.idx == b.idx) = false := by simpa using hne
+        simp [findField, hs', hb, ih]
+      · have hnd' : (liveIdxs gs).Nodup := by simpa [liveIdxs, hs'] using hnd
+        simp [findField, hs', findField_of_mem gs b u hnd' h' hs]
+
+theorem findField_none : ∀ (gs : Fields) (i : Nat), findField gs i = none ↔ i ∉ liveIdxs gs
+  | [], _ => by simp [findField, liveIdxs]
+  | (b, u) :: gs, i => by
+    have ih := findField_none gs i
+    cases hs : b.skip
+    · by_cases hi : b.idx = i
+      · simp [findField, liveIdxs, hs, hi]
+      · have hb : (b.idx == i) = false := by simpa using hi
+        have hne : ¬ i = b.idx := fun e => hi e.symm
+        simp only [findField, liveIdxs, hs, hb, Bool.not_false, Bool.true_and, Bool.false_eq_true, if_false,
+          List.mem_cons, hne, false_or]
+        exact ih
+    · simp only [findField, liveIdxs, hs, Bool.not_true, Bool.false_and, Bool.false_eq_true, if_false, if_true]
+      exact ih
+
+/-- an optional field reads `null` as its nil value. -/
+theorem dec_null_nil (b : FAttr) (u : FTy) (r : Bytes) (hopt : optionalField b u = true) (hc : codecOk b.codec u = true) :
+    decWith b.codec (decTy u) (Enc.null ++ r) = .ok (nilVal b u) r := by
+  unfold optionalField nilOf at hopt
+  cases hcd : b.codec <;> rw [hcd] at hopt hc <;> simp only at hopt
+  · cases u <;> simp [FTy.isOption] at hopt
+    simp only [decWith, decTy, nilVal, slotInit, FTy.isOption, if_true]
+    exact optionDec_none _ r
+  · cases u <;> simp [FTy.isOption] at hopt
+    simp only [decWith, decTy, nilVal, slotInit, FTy.isOption, if_true]
+    exact optionDec_none _ r
+  · have ht : u = .int .u32 := by
+      cases u <;> simp [codecOk] at hc
+      rename_i k; cases k <;> simp [codecOk] at hc; rfl
+    subst ht
+    simp [decWith, Dec.bind_run, datatype_null, skip_null, nilVal, slotInit, FTy.isOption, nilOf, hcd]
+
+theorem lookupVal_typed : ∀ (fs : Fields) (vs : List Val) (i : Nat) (a : FAttr) (t : FTy) (v : Val),
+    acceptedFields fs = true → hasFields fs vs = true → lookupVal fs vs i = some (a, t, v) →
+    codecOk a.codec t = true ∧ hasTy t v = true ∧ tagOk a.tag = true
+  | [], vs, _, _, _, _, _, _, h => by cases vs <;> simp [lookupVal] at h
+  | (a', t') :: fs, [], _, _, _, _, _, hv, _ => by simp [hasFields] at hv
+  | (a', t') :: fs, v' :: vs, i, a, t, v, ha, hv, h => by
+    simp only [acceptedFields, Bool.and_eq_true] at ha
+    simp only [hasFields, Bool.and_eq_true] at hv
+    simp only [lookupVal] at h
+    split at h
+    · rename_i hc
+      simp only [Bool.and_eq_true, Bool.not_eq_true', beq_iff_eq] at hc
+      cases h
+      have := ha.1.1
+      simp only [fieldAttrOk, hc.1, Bool.false_eq_true, if_false, Bool.and_eq_true] at this
+      exact ⟨this.1.2, hv.1, this.1.1.2⟩
+    · exact lookupVal_typed fs vs i a t v ha.2 hv.2 h
+
+/-- the result of the reader's action at index `i`: the writer's value there, or — at a gap of
+    the writer's array — the nil value of the reader's field. -/
+def rhoSame (fs : Fields) (vs : List Val) (gs : Fields) (i : Nat) : Option Val :=
+  match lookupVal fs vs i with
+  | some (_, t, v) => some (withDefaults t v)
+  | none => (findField gs i).map fun g => nilVal g.1 g.2
+
+/-- the hypotheses under which a reader reads a writer whose shared fields it declares identically. -/
+structure SameHyp (enc : Encoding) (fs : Fields) (vs : List Val) (gs : Fields) : Prop where
+  /-- shared fields are declared alike (type, tag, codec) -/
+  shared : ∀ b u, (b, u) ∈ gs → b.skip = false → ∀ a t v, lookupVal fs vs b.idx = some (a, t, v) →
+    t = u ∧ a.tag = b.tag ∧ a.codec = b.codec
+  /-- fields only the reader knows are optional — and, in array encoding below the end of the
+      writer's array, untagged (the K5 exclusion) -/
+  ronly : ∀ b u, (b, u) ∈ gs → b.skip = false → lookupVal fs vs b.idx = none →
+    optionalField b u = true ∧
+    (enc = .array → ∀ m, maxPresent (specFields fs vs) = some m → b.idx ≤ m → b.tag = none)
+  /-- fields only the writer knows are items `skip()` gets across (C06.skip_exact) -/
+  wonly : ∀ p ∈ encFields fs vs, p.idx ∉ liveIdxs gs → ∀ r, Dec.skip true (tagBytes p.tag ++ (p.body ++ r)) = .ok () r
+
+theorem fieldOk_of_mem : ∀ (gs : Fields) (b : FAttr) (u : FTy), acceptedFields gs = true → (b, u) ∈ gs → b.skip = false →
+    tagOk b.tag = true ∧ codecOk b.codec u = true
+  | [], _, _, _, h, _ => by simp at h
+  | (b', u') :: gs, b, u, ha, h, hs => by
+    simp only [acceptedFields, Bool.and_eq_true] at ha
+    rcases List.mem_cons.1 h with e | h'
+    · cases e
+      have := ha.1.1
+      simp only [fieldAttrOk, hs, Bool.false_eq_true, if_false, Bool.and_eq_true] at this
+      exact ⟨this.1.1.2, this.1.2⟩
+    · exact fieldOk_of_mem gs b u ha.2 h' hs
+
+theorem stepH_piece (enc : Encoding) (fs : Fields) (vs : List Val) (gs : Fields) (i : Nat) (a : FAttr) (t : FTy) (v : Val)
+    (haccR : acceptedFields gs = true) (hrt : FieldsRT fs vs) (H : SameHyp enc fs vs gs)
+    (hl : lookupVal fs vs i = some (a, t, v)) :
+    StepH gs (rhoSame fs vs gs i) i (tagBytes a.tag ++ encWith a.codec (encTy t) v) := by
+  obtain ⟨hskip, hai, hmem⟩ := lookupVal_mem fs vs i a t v hl
+  intro r
+  constructor
+  · intro hni
+    have := H.wonly _ hmem (by simpa [hai] using hni) r
+    simpa [List.append_assoc] using this
+  · intro b u hbu hbs hbi
+    have hsh := H.shared b u hbu hbs a t v (by rw [hbi]; exact hl)
+    obtain ⟨rfl, htag, hcod⟩ := hsh
+    have hok := fieldOk_of_mem gs b t haccR hbu hbs
+    have hd := lookupVal_rt fs vs i a t v hrt hl r
+    have := action_rt (fdOf b t) (withDefaults t v) (encWith a.codec (encTy t) v) r hok.1
+      (by simp only [fdOf, ← hcod]; exact hd)
+    simp only [rhoSame, hl, List.append_assoc]
+    simp only [fdOf] at this
+    rw [← htag] at this
+    exact this
+
+theorem stepH_gap (enc : Encoding) (fs : Fields) (vs : List Val) (gs : Fields) (i : Nat)
+    (haccR : acceptedFields gs = true) (hndR : (liveIdxs gs).Nodup) (H : SameHyp enc fs vs gs)
+    (hl : lookupVal fs vs i = none)
+    (hk5 : ∀ b u, (b, u) ∈ gs → b.skip = false → b.idx = i → b.tag = none) :
+    StepH gs (rhoSame fs vs gs i) i Enc.null := by
+  intro r
+  constructor
+  · intro _; exact skip_null r
+  · intro b u hbu hbs hbi
+    have hf := findField_of_mem gs b u hndR hbu hbs
+    rw [hbi] at hf
+    have hro := H.ronly b u hbu hbs (by rw [hbi]; exact hl)
+    have hok := fieldOk_of_mem gs b u haccR hbu hbs
+    have htag := hk5 b u hbu hbs hbi
+    have hd := dec_null_nil b u r hro.1 hok.2
+    simp only [rhoSame, hl, hf, Option.map_some]
+    unfold action
+    simp only [fdOf, htag, tagCheck]
+    rw [Dec.bind_run]
+    simp only [Dec.pure_run, catchVariant, hd]
+
+theorem sigmaF_array (fs : Fields) (vs : List Val) (ρ : Nat → Option Val) (m i : Nat)
+    (hm : maxPresent (specFields fs vs) = some m) :
+    sigmaF .array fs vs ρ i = if i ≤ m then ρ i else none := by
+  simp only [sigmaF, hm, ovr]
+  by_cases h : i ≤ m
+  · have : (decide (0 ≤ i) && decide (i < 0 + (m + 1))) = true := by simp; omega
+    rw [this]; simp only [if_true, h]
+    cases ρ i <;> rfl
+  · have : (decide (0 ≤ i) && decide (i < 0 + (m + 1))) = false := by simp; omega
+    rw [this]; simp [h]
+
+theorem sigmaF_map (fs : Fields) (vs : List Val) (ρ : Nat → Option Val) (i : Nat) :
+    sigmaF .map fs vs ρ i = if presentIdx (sortP (encFields fs vs)) i then ρ i else none := by
+  simp only [sigmaF, ovrM]
+  split
+  · cases ρ i <;> rfl
+  · rfl
+
+/-- is the writer's field with index `i` on the wire? -/
+def onWire (enc : Encoding) (fs : Fields) (vs : List Val) (i : Nat) (nil : Bool) : Bool :=
+  match enc with
+  | .array => (match maxPresent (specFields fs vs) with
+      | none => false
+      | some m => decide (i ≤ m))
+  | .map => !nil
+
+theorem presentIdx_iff (S : List (Piece Bytes)) (i : Nat) :
+    presentIdx S i = true ↔ ∃ p ∈ S, p.nil = false ∧ p.idx = i := by
+  simp [presentIdx, List.any_eq_true]
+
+theorem sigmaF_piece (enc : Encoding) (fs : Fields) (vs : List Val) (ρ : Nat → Option Val)
+    (hacc : acceptedFields fs = true) (hnd : (liveIdxs fs).Nodup) (hty : hasFields fs vs = true)
+    (p : Piece Bytes) (hp : p ∈ encFields fs vs) :
+    sigmaF enc fs vs ρ p.idx = if onWire enc fs vs p.idx p.nil then ρ p.idx else none := by
+  cases enc with
+  | array =>
+    cases hm : maxPresent (specFields fs vs) with
+    | none => simp [sigmaF, onWire, hm]
+    | some m => rw [sigmaF_array fs vs ρ m p.idx hm]; simp [onWire, hm]
+  | map =>
+    rw [sigmaF_map]
+    have hperm := sortP_perm (encFields fs vs)
+    have nd' : (idxs (encFields fs vs)).Nodup := by rw [liveIdxs_eq_idxs fs vs hty]; exact hnd
+    have : presentIdx (sortP (encFields fs vs)) p.idx = !p.nil := by
+      cases hn : p.nil
+      · simp only [Bool.not_false]
+        exact (presentIdx_iff _ _).2 ⟨p, hperm.mem_iff.2 hp, hn, rfl⟩
+      · simp only [Bool.not_true]
+        cases hpi : presentIdx (sortP (encFields fs vs)) p.idx
+        · rfl
+        · obtain ⟨q, hq, hqn, hqi⟩ := (presentIdx_iff _ _).1 hpi
+          have hq' := hperm.mem_iff.1 hq
+          -- two pieces with the same index are the same piece
+          have : q = p := by
+            have hinj : ∀ (l : List (Piece Bytes)), (idxs l).Nodup → ∀ x ∈ l, ∀ y ∈ l, x.idx = y.idx → x = y := by
+              intro l
+              induction l with
+              | nil => intro _ x hx; simp at hx
+              | cons z zs ih =>
+                intro hn x hx y hy hxy
+                have hn' : z.idx ∉ idxs zs ∧ (idxs zs).Nodup := List.nodup_cons.1 hn
+                rcases List.mem_cons.1 hx with rfl | hx' <;> rcases List.mem_cons.1 hy with rfl | hy'
+                · rfl
+                · exact absurd (List.mem_map.2 ⟨y, hy', hxy.symm⟩) hn'.1
+                · exact absurd (List.mem_map.2 ⟨x, hx', hxy⟩) hn'.1
+                · exact ih hn'.2 x hx' y hy' hxy
+            exact hinj _ nd' q hq' p hp hqi
+          rw [this, hn] at hqn; cases hqn
+    rw [this]; simp [onWire]
+
+/-- **adding and dropping fields** (any number, both encodings, any declaration order): a reader
+    that declares its shared fields exactly like the writer, whose own extra fields are optional
+    (and not hit by K5), reads the writer's body as: shared fields equal, its extra fields nil,
+    the writer's extra fields ignored. -/
+theorem fieldsDec_same (enc : Encoding) (fs : Fields) (vs : List Val) (gs : Fields) (rest : Bytes)
+    (hacc : acceptedFields fs = true) (hnd : (liveIdxs fs).Nodup) (hty : hasFields fs vs = true)
+    (hrt : FieldsRT fs vs) (haccR : acceptedFields gs = true) (hndR : (liveIdxs gs).Nodup)
+    (H : SameHyp enc fs vs gs) :
+    fieldsDec enc (decFields gs) (frame enc (encFields fs vs) ++ rest) = .ok (expectSame fs vs gs) rest := by
+  have hmain := fieldsDec_compat enc fs vs gs rest (rhoSame fs vs gs) hacc hnd hty hndR
+    (by
+      intro he m hm i hi
+      subst he
+      unfold cellAt
+      rw [lookupVal_find fs vs i hty]
+      cases hl : lookupVal fs vs i with
+      | some x =>
+        obtain ⟨a, t, v⟩ := x
+        obtain ⟨hc, hv, htag⟩ := lookupVal_typed fs vs i a t v hacc hty hl
+        have hmem := (lookupVal_mem fs vs i a t v hl).2.2
+        rw [C08.fields_spec fs vs hacc hty] at hmem
+        obtain ⟨q, hq, hqe⟩ := List.mem_map.1 hmem
+        have hbody : encWith a.codec (encTy t) v = encPref (specWith a.codec (specTy t) v) := by
+          -- the body of the writer's piece is the encoding of the spec piece found at the same index
+          have hf := lookupVal_find fs vs i hty
+          rw [hl] at hf
+          simp only [Option.map_some] at hf
+          have hq2 := List.mem_of_find?_eq_some hf
+          have := mem_encFields_of_spec fs vs hacc hty _ hq2
+          obtain ⟨a2, t2, v2, hl2, he2⟩ := lookupVal_of_mem fs vs _ hnd this
+          simp only [toBytes_idx] at hl2
+          have hai := (lookupVal_mem fs vs i a t v hl).2.1
+          rw [hai, hl] at hl2
+          cases hl2
+          have := congrArg Piece.body he2
+          simpa [toBytes] using this.symm
+        simp only [Option.map_some, encPref_tagI _ _ htag, ← hbody]
+        exact stepH_piece .array fs vs gs i a t v haccR hrt H hl
+      | none =>
+        simp only [Option.map_none]
+        exact stepH_gap .array fs vs gs i haccR hndR H hl
+          (fun b u hbu hbs hbi => (H.ronly b u hbu hbs (by rw [hbi]; exact hl)).2 rfl m hm (by omega)))
+    (by
+      intro _ p hp _
+      obtain ⟨a, t, v, hl, he⟩ := lookupVal_of_mem fs vs p hnd hp
+      have := stepH_piece enc fs vs gs p.idx a t v haccR hrt H hl
+      rw [he]; rw [he] at this; exact this)
+    (by
+      intro b u hbu hbs hσ hsi
+      cases hl : lookupVal fs vs b.idx with
+      | none => exact (H.ronly b u hbu hbs hl).1
+      | some x =>
+        obtain ⟨a, t, v⟩ := x
+        obtain ⟨rfl, _, hcod⟩ := H.shared b u hbu hbs a t v hl
+        obtain ⟨_, hai, hmem⟩ := lookupVal_mem fs vs b.idx a t v hl
+        have hs := sigmaF_piece enc fs vs (rhoSame fs vs gs) hacc hnd hty _ hmem
+        simp only [hai] at hs
+        rw [hs] at hσ
+        -- not on the wire: the writer's value is nil
+        have hnil : isNilField a t v = true := by
+          cases hw : onWire enc fs vs b.idx (isNilField a t v)
+          · cases enc with
+            | map => simpa [onWire] using hw
+            | array =>
+              cases hm : maxPresent (specFields fs vs) with
+              | none =>
+                have hmem' := hmem
+                rw [C08.fields_spec fs vs hacc hty] at hmem'
+                obtain ⟨q, hq, hqe⟩ := List.mem_map.1 hmem'
+                have := maxPresent_none hm q hq
+                have e := congrArg Piece.nil hqe
+                simp only [toBytes_nil] at e
+                rw [← e]; exact this
+              | some m =>
+                simp only [onWire, hm, decide_eq_false_iff_not] at hw
+                cases hn : isNilField a t v
+                · have hmem' := hmem
+                  rw [C08.fields_spec fs vs hacc hty] at hmem'
+                  obtain ⟨q, hq, hqe⟩ := List.mem_map.1 hmem'
+                  have e := congrArg Piece.nil hqe
+                  have e2 := congrArg Piece.idx hqe
+                  simp only [toBytes_nil, toBytes_idx] at e e2
+                  have := maxPresent_ge hm q hq (by rw [e]; exact hn)
+                  omega
+                · rfl
+          · rw [hw] at hσ
+            simp [rhoSame, hl] at hσ
+        obtain ⟨hc, hv, _⟩ := lookupVal_typed fs vs b.idx a t v hacc hty hl
+        have := nil_resolves a t v hc hv hnil
+        rw [hsi] at this
+        simp only at this
+        have hno : nilOf b t = nilOf a t := by simp [nilOf, hcod]
+        rw [hno, this]; rfl)
+  rw [hmain]
+  congr 1
+  -- the two value lists agree field by field
+  have key : ∀ (gs' : Fields), (∀ g ∈ gs', g ∈ gs) →
+      readerVals (sigmaF enc fs vs (rhoSame fs vs gs)) gs' = expectSame fs vs gs' := by
+    intro gs'
+    induction gs' with
+    | nil => intro _; rfl
+    | cons g gs' ih =>
+      intro hsub
+      obtain ⟨b, u⟩ := g
+      have hbu : (b, u) ∈ gs := hsub _ (by simp)
+      simp only [readerVals, expectSame, ih (fun g hg => hsub g (by simp [hg]))]
+      congr 1
+      cases hbs : b.skip
+      · simp only [Bool.false_eq_true, if_false]
+        cases hl : lookupVal fs vs b.idx with
+        | some x =>
+          obtain ⟨a, t, v⟩ := x
+          obtain ⟨rfl, _, hcod⟩ := H.shared b u hbu hbs a t v hl
+          obtain ⟨_, hai, hmem⟩ := lookupVal_mem fs vs b.idx a t v hl
+          have hs := sigmaF_piece enc fs vs (rhoSame fs vs gs) hacc hnd hty _ hmem
+          simp only [hai] at hs
+          rw [hs]
+          cases hw : onWire enc fs vs b.idx (isNilField a t v)
+          · -- not on the wire: nil, and the nil value is the writer's value
+            simp only [Bool.false_eq_true, if_false]
+            have hnil : isNilField a t v = true := by
+              cases enc with
+              | map => simpa [onWire] using hw
+              | array =>
+                cases hm : maxPresent (specFields fs vs) with
+                | none =>
+                  have hmem' := hmem
+                  rw [C08.fields_spec fs vs hacc hty] at hmem'
+                  obtain ⟨q, hq, hqe⟩ := List.mem_map.1 hmem'
+                  have := maxPresent_none hm q hq
+                  have e := congrArg Piece.nil hqe
+                  simp only [toBytes_nil] at e
+                  rw [← e]; exact this
+                | some m =>
+                  simp only [onWire, hm, decide_eq_false_iff_not] at hw
+                  cases hn : isNilField a t v
+                  · have hmem' := hmem
+                    rw [C08.fields_spec fs vs hacc hty] at hmem'
+                    obtain ⟨q, hq, hqe⟩ := List.mem_map.1 hmem'
+                    have e := congrArg Piece.nil hqe
+                    have e2 := congrArg Piece.idx hqe
+                    simp only [toBytes_nil, toBytes_idx] at e e2
+                    have := maxPresent_ge hm q hq (by rw [e]; exact hn)
+                    omega
+                  · rfl
+            obtain ⟨hc, hv, _⟩ := lookupVal_typed fs vs b.idx a t v hacc hty hl
+            have hr := nil_resolves a t v hc hv hnil
+            have hno : nilOf b t = nilOf a t := by simp [nilOf, hcod]
+            cases hsi : slotInit t with
+            | some y => rw [hsi] at hr; simp at hr; simp [hr]
+            | none =>
+              rw [hsi] at hr; simp only at hr
+              rw [hno, hr]; rfl
+          · simp [rhoSame, hl]
+        | none =>
+          -- only the reader knows the field: nil either way
+          have hf := findField_of_mem gs b u hndR hbu hbs
+          cases enc with
+          | map =>
+            rw [sigmaF_map]
+            have : presentIdx (sortP (encFields fs vs)) b.idx = false := by
+              cases hpi : presentIdx (sortP (encFields fs vs)) b.idx
+              · rfl
+              · obtain ⟨q, hq, _, hqi⟩ := (presentIdx_iff _ _).1 hpi
+                have hq' := (sortP_perm (encFields fs vs)).mem_iff.1 hq
+                obtain ⟨a, t, v, hl', _⟩ := lookupVal_of_mem fs vs q hnd hq'
+                rw [hqi, hl] at hl'; cases hl'
+            rw [this]; simp [nilVal]
+          | array =>
+            cases hm : maxPresent (specFields fs vs) with
+            | none => simp [sigmaF, hm, nilVal]
+            | some m =>
+              rw [sigmaF_array fs vs _ m b.idx hm]
+              by_cases hle : b.idx ≤ m
+              · simp [hle, rhoSame, hl, hf]
+              · simp [hle, nilVal]
+      · simp
+  exact key gs (fun g hg => hg)
+
+/-! ### the two documented single edits on a field list: add a field, drop a field -/
+
+theorem encFields_idx_live : ∀ (fs : Fields) (vs : List Val) (q : Piece Bytes), q ∈ encFields fs vs → q.idx ∈ liveIdxs fs
+  | [], vs, q, hq => by cases vs <;> simp [encFields] at hq
+  | (fa, ft) :: fs, [], q, hq => by simp [encFields] at hq
+  | (fa, ft) :: fs, w :: ws, q, hq => by
+    cases hfs : fa.skip
+    · simp only [encFields, hfs, Bool.false_eq_true, if_false, List.mem_cons] at hq
+      rcases hq with rfl | hq
+      · simp [liveIdxs, hfs]
+      · simp [liveIdxs, hfs, encFields_idx_live fs ws q hq]
+    · simp only [encFields, hfs, if_true] at hq
+      simp [liveIdxs, hfs, encFields_idx_live fs ws q hq]
+
+theorem lookupVal_fst_mem : ∀ (fs : Fields) (vs : List Val) (i : Nat) (a : FAttr) (t : FTy) (v : Val),
+    lookupVal fs vs i = some (a, t, v) → (a, t) ∈ fs
+  | [], vs, _, _, _, _, h => by cases vs <;> simp [lookupVal] at h
+  | (a', t') :: fs, [], _, _, _, _, h => by simp [lookupVal] at h
+  | (a', t') :: fs, v' :: vs, i, a, t, v, h => by
+    simp only [lookupVal] at h
+    split at h
+    · cases h; simp
+    · simp [lookupVal_fst_mem fs vs i a t v h]
+
+theorem live_inj : ∀ (fs : Fields), (liveIdxs fs).Nodup → ∀ x ∈ fs, ∀ y ∈ fs, x.1.skip = false → y.1.skip = false →
+    x.1.idx = y.1.idx → x = y
+  | [], _, x, hx, _, _, _, _, _ => by simp at hx
+  | (a, t) :: fs, hnd, x, hx, y, hy, hxs, hys, hxy => by
+    have ih := live_inj fs
+    cases hs : a.skip
+    · have hnd' : a.idx ∉ liveIdxs fs ∧ (liveIdxs fs).Nodup := by simpa [liveIdxs, hs] using hnd
+      rcases List.mem_cons.1 hx with rfl | hx' <;> rcases List.mem_cons.1 hy with rfl | hy'
+      · rfl
+      · exact absurd (by rw [hxy]; exact mem_liveIdxs fs y.1 y.2 hy' hys) hnd'.1
+      · exact absurd (by rw [← hxy]; exact mem_liveIdxs fs x.1 x.2 hx' hxs) hnd'.1
+      · exact ih hnd'.2 x hx' y hy' hxs hys hxy
+    · have hnd' : (liveIdxs fs).Nodup := by simpa [liveIdxs, hs] using hnd
+      rcases List.mem_cons.1 hx with rfl | hx' <;> rcases List.mem_cons.1 hy with rfl | hy'
+      · rfl
+      · rw [hs] at hxs; cases hxs
+      · rw [hs] at hys; cases hys
+      · exact ih hnd' x hx' y hy' hxs hys hxy
+
+/-- looking a field of the list up by its own index finds that field. -/
+theorem lookupVal_unique (fs : Fields) (vs : List Val) (hnd : (liveIdxs fs).Nodup) (b : FAttr) (u : FTy)
+    (hbu : (b, u) ∈ fs) (hbs : b.skip = false) (a : FAttr) (t : FTy) (v : Val)
+    (hl : lookupVal fs vs b.idx = some (a, t, v)) : a = b ∧ t = u := by
+  have hm := lookupVal_fst_mem fs vs b.idx a t v hl
+  obtain ⟨has, hai, _⟩ := lookupVal_mem fs vs b.idx a t v hl
+  have := live_inj fs hnd (a, t) hm (b, u) hbu has hbs hai
+  cases this; exact ⟨rfl, rfl⟩
+
+/-- every field of (a suffix of) the writer, looked up in the writer, yields its own (defaulted) value. -/
+theorem expectSame_suffix (fs0 : Fields) (vs0 : List Val) : ∀ (fs : Fields) (vs : List Val),
+    hasFields fs vs = true → (liveIdxs fs).Nodup →
+    (∀ i a t v, lookupVal fs vs i = some (a, t, v) → lookupVal fs0 vs0 i = some (a, t, v)) →
+    expectSame fs0 vs0 fs = defaultsFields fs vs
+  | [], [], _, _, _ => rfl
+  | (a, t) :: fs, v :: vs, hty, hnd, hsub => by
+    simp only [hasFields, Bool.and_eq_true] at hty
+    cases hs : a.skip
+    · have hnd' : a.idx ∉ liveIdxs fs ∧ (liveIdxs fs).Nodup := by simpa [liveIdxs, hs] using hnd
+      have hself : lookupVal fs0 vs0 a.idx = some (a, t, v) := hsub a.idx a t v (by simp [lookupVal, hs])
+      have ih := expectSame_suffix fs0 vs0 fs vs hty.2 hnd'.2 (by
+        intro i a' t' v' hl
+        apply hsub
+        have hi : a.idx ≠ i := by
+          intro e
+          have := (lookupVal_none fs vs i hty.2).2 (by rw [← e]; exact hnd'.1)
+          rw [this] at hl; cases hl
+        have hb : (a.idx == i) = false := by simpa using hi
+        simp [lookupVal, hs, hb, hl])
+      simp [expectSame, defaultsFields, hs, hself, ih]
+    · have hnd' : (liveIdxs fs).Nodup := by simpa [liveIdxs, hs] using hnd
+      have ih := expectSame_suffix fs0 vs0 fs vs hty.2 hnd' (by
+        intro i a' t' v' hl
+        apply hsub
+        simp [lookupVal, hs, hl])
+      simp [expectSame, defaultsFields, hs, ih]
+  | [], _ :: _, h, _, _ => by simp [hasFields] at h
+  | _ :: _, [], h, _, _ => by simp [hasFields] at h
 
 end Minicbor.Derive
